@@ -273,6 +273,7 @@ package streams
 //@   safe
 //@ property C04, C06
 //@ immutable BufferedInputConnection.Reader
+//@ immutable BufferedInputConnection.Connection
 
 //@ func NewBufferedInputConnection
 //@   property C04, C06
